@@ -5,6 +5,8 @@ one-step meaning of a reference text), KinModel/LoaderJson.lean (concrete step f
 KinModel/Lemmas/C02.lean.
 -/
 import KinModel.Lemmas.C02
+import KinModel.Lemmas.C02Term
+import KinModel.Lemmas.C02Complete
 import KinModel.LoaderJson
 import KinModel.Gen.ResolverSkeleton
 namespace KinModel.Loader
@@ -80,6 +82,76 @@ theorem wrong_kind_fails (w : World) (fuel : Nat) (cx cx' : Loc) (o tgt : Obj) (
   simp only [resolve, hn, hr, hv, hp, loadDoc, hd, he, ht, htn]
   simp only [Option.isSome_none, Bool.false_eq_true, if_false, ne_eq, hk, not_false_eq_true, if_true]
   rfl
+
+/-! ### (1) Loading always terminates
+
+`resolve` is fuel-indexed; fuel bounds the NESTING depth only. Every nested call either descends to a child of a
+value (`rank` drops) or happens inside a visit that has put a new reference text into `visitedRefs`. -/
+
+/-- With fuel `(#texts + 1) · (R + 1)` — `R` a bound on the nesting depth of values — loading never runs out of fuel,
+for every store, every reference graph (cycles, chains, cross-document) and every `target`/`docOf`/`rewalk`. -/
+theorem load_terminates (w : World) (rank : Obj → Nat) (R : Nat) (T : List Text) (hR : Ranked w rank R) (hT : TextsIn w T)
+    (fuel : Nat) (root : Loc) (h : (T.length + 1) * (R + 1) ≤ fuel) : load w fuel root ≠ .outOfFuel := by
+  unfold load
+  apply foldRes_noOOF _ (fun _ => True) (fun _ _ _ _ _ => trivial)
+  · intro k _ s _
+    apply resolve_noOOF w rank R T hR hT
+    unfold need
+    have h1 : missing T s.inprog ≤ T.length := by unfold missing; exact List.length_filter_le _ _
+    have h2 : min (rank k) R ≤ R := Nat.min_le_right _ _
+    have h3 : missing T s.inprog * (R + 1) ≤ T.length * (R + 1) := Nat.mul_le_mul_right _ h1
+    have h4 : (T.length + 1) * (R + 1) = T.length * (R + 1) + (R + 1) := by rw [Nat.add_mul, Nat.one_mul]
+    omega
+  · trivial
+
+/-- More fuel never changes a result: above the bound the outcome of `load` does not depend on the fuel. -/
+theorem load_fuel_independent (w : World) (fuel g : Nat) (root : Loc) (r : Res)
+    (h : load w fuel root = r) (hne : r ≠ .outOfFuel) (hg : fuel ≤ g) : load w g root = r := by
+  unfold load at h ⊢
+  exact foldRes_ext _ _ (fun k s r hr hne => resolve_fuel_mono w fuel root k s r hr hne g hg) _ _ r h hne
+
+/-! ### (4) Completeness: every reference of the loaded graph has a value
+
+FULL STATEMENT (does not hold of the code, witnesses `w34`, `w48` below):
+  load w fuel root = .ok s → every reference object reachable from the root positions has a value.
+What is proved: the same for runs in which `unvisitRef` was never called with a nil value (a pure `$ref` cycle, #34),
+no backtrack callback met a value of another kind (F-C02-48) and no `errMUST…` was swallowed (the fragment `#`,
+#34) — three counters of the model, reported by the driver as the classes DegenerateTarget / KindClashUnresolved. -/
+
+theorem load_ok_complete_partial (w : World) (fuel : Nat) (root : Loc) (s : St)
+    (h : load w fuel root = .ok s) (hc : Clean s) :
+    ∀ o n t, Reach w s root o → w.node o = some n → n.ref = some t → (getC w s o).isSome = true := by
+  unfold load at h
+  obtain ⟨_, hi, _, hp⟩ := presC_foldRes w _ (fun k => resolve_presC w fuel root k) (w.roots root) _ s h hc
+  have hs : Settled w s := hp ⟨by intro o v h; simp at h, by intro o h; simp at h, by intro o h; simp at h, by intro t o h; simp at h⟩
+  have hroots := (foldRes_done _ (fun k => resolve_marks w fuel root k) _ _ _ h).2
+  intro o n t hreach hn hr
+  have hd := reach_done w s root hs hroots o hreach
+  rcases hs.refs o hd n t hn hr with hh | hpend
+  · exact (getC_isSome_iff w s o).2 hh
+  · have := hs.pend t o hpend
+    rw [hi] at this
+    simp at this
+
+/-- (2)+(4) together: in a clean run without foreign evaluation, every reference of the loaded graph (the copies the
+resolvers make are not part of it) HAS a value and that value is the object its text designates. -/
+theorem load_ok_resolves_all_partial (w : World) (hT : TextIsGlobal w) (hC : CopyOK w) (fuel : Nat) (root : Loc) (s : St)
+    (h : load w fuel root = .ok s) (hf : s.foreign = false) (hc : Clean s) :
+    ∀ o n t, Reach w s root o → w.node o = some n → n.ref = some t → n.orig = none →
+      ∃ v f, s.get o = some v ∧ designates w f o = some v := by
+  intro o n t hreach hn hr ho
+  have h1 := load_ok_complete_partial w fuel root s h hc o n t hreach hn hr
+  have h2 : getC w s o = s.get o := by
+    unfold getC
+    cases hg : s.get o with
+    | some v => rfl
+    | none => simp [hn, ho]
+  rw [h2] at h1
+  cases hg : s.get o with
+  | none => simp [hg] at h1
+  | some v =>
+    obtain ⟨f, hf'⟩ := load_ok_resolves_partial w hT hC fuel root s h hf o v (get_mem s o v hg)
+    exact ⟨v, f, rfl, hf'⟩
 
 /-! ### (T) the ten resolvers have the skeleton and the child calls the model assumes
 
@@ -234,5 +306,15 @@ def wCycle : World where
 example : (match load wCycle 20 0 with
     | .ok s => (!s.foreign) && s.get 0 == some 1 && s.get 2 == some 3 && s.get 4 == some 1
     | _ => false) = true := by decide
+
+/-- the hypotheses of `load_terminates` hold of it (rank 1 for the two values with a child), the bound is 6 -/
+example : Ranked wCycle (fun o => if o = 1 ∨ o = 3 then 1 else 0) 1 ∧ TextsIn wCycle [0, 1] ∧
+    (match load wCycle 6 0 with | .ok s => s.nnil + s.nskip + s.nempty == 0 | _ => false) = true := by
+  refine ⟨⟨?_, ?_⟩, ?_, by decide⟩
+  · intro o n _; show (if o = 1 ∨ o = 3 then 1 else 0) ≤ 1; split <;> omega
+  · intro o n k hn hr hk
+    rcases o with _ | _ | _ | _ | _ | o <;> simp [World.node, wCycle] at hn <;> subst hn <;> simp at hr hk ⊢ <;> subst hk <;> simp
+  · intro o n t hn hr
+    rcases o with _ | _ | _ | _ | _ | o <;> simp [World.node, wCycle] at hn <;> subst hn <;> simp at hr ⊢ <;> subst hr <;> simp
 
 end KinModel.Loader
